@@ -92,15 +92,14 @@ func (c *termCtx) set8(t *Term) (*bitset, *Term, bool) {
 	}
 	x := vs[0]
 	var s bitset
-	model := map[string]*Term{}
+	prog := compileTerm(t)
+	if prog == nil {
+		t.setFail = true
+		return nil, nil, false
+	}
+	vals := make([]uint64, len(prog.nodes))
 	for v := 0; v < 256; v++ {
-		model[x.name] = c.BV(8, uint64(v))
-		r := c.evalTerm(t, model, map[int]*Term{})
-		if r == nil {
-			t.setFail = true
-			return nil, nil, false
-		}
-		if r.cv == 1 {
+		if prog.run(vals, uint64(v)) == 1 {
 			s[v>>6] |= 1 << uint(v&63)
 		}
 	}
@@ -245,4 +244,204 @@ func (w *world) preFeasible(t *Term) (satResult, bool) {
 		}
 	}
 	return rUnknown, false
+}
+
+// termProg is a term DAG flattened in post-order for repeated evaluation over
+// one variable.
+type termProg struct {
+	nodes []*Term
+	args  [][]int
+}
+
+func compileTerm(t *Term) *termProg {
+	p := &termProg{}
+	idx := map[int]int{}
+	ok := true
+	var visit func(t *Term) int
+	visit = func(t *Term) int {
+		if i, seen := idx[t.id]; seen {
+			return i
+		}
+		var as []int
+		for _, a := range t.args {
+			as = append(as, visit(a))
+		}
+		if !evalSupported(t) {
+			ok = false
+		}
+		p.nodes = append(p.nodes, t)
+		p.args = append(p.args, as)
+		idx[t.id] = len(p.nodes) - 1
+		return len(p.nodes) - 1
+	}
+	visit(t)
+	if !ok {
+		return nil
+	}
+	return p
+}
+
+func evalSupported(t *Term) bool {
+	if t.sort.k == sInt {
+		return false
+	}
+	for _, a := range t.args {
+		if a.sort.k == sInt {
+			return false
+		}
+	}
+	switch t.op {
+	case "const", "var", "not", "and", "or", "ite", "=", "bvneg", "bvnot",
+		"bvult", "bvule", "bvugt", "bvuge", "bvslt", "bvsle", "bvsgt", "bvsge",
+		"bvadd", "bvsub", "bvmul", "bvand", "bvor", "bvxor", "bvshl", "bvlshr", "bvashr",
+		"bvudiv", "bvurem", "bvsdiv", "bvsrem":
+		return true
+	}
+	if len(t.op) > 3 && t.op[:3] == "(_ " {
+		return t.op[3] == 'z' || t.op[3] == 's' || t.op[3] == 'e'
+	}
+	return false
+}
+
+// run evaluates the program with its single variable set to x.
+func (p *termProg) run(vals []uint64, x uint64) uint64 {
+	for i, t := range p.nodes {
+		a := p.args[i]
+		var r uint64
+		switch t.op {
+		case "const":
+			r = t.cv
+		case "var":
+			r = x
+		case "not":
+			r = vals[a[0]] ^ 1
+		case "and":
+			r = 1
+			for _, j := range a {
+				r &= vals[j]
+			}
+		case "or":
+			r = 0
+			for _, j := range a {
+				r |= vals[j]
+			}
+		case "ite":
+			if vals[a[0]] == 1 {
+				r = vals[a[1]]
+			} else {
+				r = vals[a[2]]
+			}
+		case "=":
+			if vals[a[0]] == vals[a[1]] {
+				r = 1
+			}
+		case "bvneg":
+			r = (-vals[a[0]]) & mask(t.sort.w)
+		case "bvnot":
+			r = (^vals[a[0]]) & mask(t.sort.w)
+		default:
+			if len(a) == 2 {
+				w := t.args[0].sort.w
+				xv, yv := vals[a[0]], vals[a[1]]
+				sx, sy := signExt(xv, w), signExt(yv, w)
+				b := func(c bool) uint64 {
+					if c {
+						return 1
+					}
+					return 0
+				}
+				switch t.op {
+				case "bvult":
+					r = b(xv < yv)
+				case "bvule":
+					r = b(xv <= yv)
+				case "bvugt":
+					r = b(xv > yv)
+				case "bvuge":
+					r = b(xv >= yv)
+				case "bvslt":
+					r = b(sx < sy)
+				case "bvsle":
+					r = b(sx <= sy)
+				case "bvsgt":
+					r = b(sx > sy)
+				case "bvsge":
+					r = b(sx >= sy)
+				case "bvadd":
+					r = (xv + yv) & mask(w)
+				case "bvsub":
+					r = (xv - yv) & mask(w)
+				case "bvmul":
+					r = (xv * yv) & mask(w)
+				case "bvand":
+					r = xv & yv
+				case "bvor":
+					r = xv | yv
+				case "bvxor":
+					r = xv ^ yv
+				case "bvshl":
+					if yv < uint64(w) {
+						r = (xv << yv) & mask(w)
+					}
+				case "bvlshr":
+					if yv < uint64(w) {
+						r = xv >> yv
+					}
+				case "bvashr":
+					if yv >= uint64(w) {
+						yv = uint64(w - 1)
+					}
+					r = uint64(sx>>yv) & mask(w)
+				case "bvudiv":
+					if yv == 0 {
+						r = mask(w)
+					} else {
+						r = xv / yv
+					}
+				case "bvurem":
+					if yv == 0 {
+						r = xv
+					} else {
+						r = xv % yv
+					}
+				case "bvsdiv":
+					switch {
+					case yv == 0:
+						if sx < 0 {
+							r = 1
+						} else {
+							r = mask(w)
+						}
+					case sy == -1:
+						r = uint64(-sx) & mask(w)
+					default:
+						r = uint64(sx/sy) & mask(w)
+					}
+				case "bvsrem":
+					switch {
+					case yv == 0:
+						r = xv
+					case sy == -1:
+						r = 0
+					default:
+						r = uint64(sx%sy) & mask(w)
+					}
+				}
+			} else {
+				// extensions / extract
+				aw := t.args[0].sort.w
+				v := vals[a[0]]
+				switch t.op[3] {
+				case 'z':
+					r = v
+				case 's':
+					r = uint64(signExt(v, aw)) & mask(t.sort.w)
+				case 'e':
+					r = v & mask(t.sort.w)
+				}
+			}
+		}
+		vals[i] = r
+	}
+	return vals[len(vals)-1]
 }
